@@ -78,4 +78,8 @@ def queries(tier):
                                 stubs=STUBS, cflags=PRIV, kf_excl=ex, timeout=600, mem_gb=8))
         qs.append(Query('exp/%s/ne10/sign0/kf-wrap' % ch, 'C09_scan.cpp', 'h_exp', kf({'NE': 10, 'ESIGN': 0, 'CHAR': ch}, [], 'C09-exponent-wrap'),
                         bounds={'stringToNumber|parseExponent': 14, 'h_exp': 11, 'vf_buf.*': 14}, stubs=STUBS, cflags=PRIV, kf_only=ko('C09-exponent-wrap'), timeout=600, mem_gb=8))
+    # (b) the negative power-of-ten kernel alone: every 64-bit mantissa, decimal exponent concrete per query
+    KB = {'pow10_': 21, 'bitlen': 66, 'powerOfNegativeTen': 3, 'FindLastBit|ShiftLeft|ShiftRight|Multiply|.*BigInt.*|operator.*': 6}
+    for e in ((1, 16) if tier == 'quick' else tuple(range(1, 20))):
+        qs.append(Query('kernel/p10neg/E%d' % e, 'C09_kernel.cpp', 'h_p10neg', {'KE': e}, bounds=KB, default_unwind=6, cflags=PRIV, backend='kissat', timeout=900, mem_gb=8))
     return qs
